@@ -469,7 +469,17 @@ def rule_option_map(text):
     return rewrite(text, finder)
 
 
-def rule_panics(text, no_panic=False):
+def rule_panics(text, no_panic=False, policy="allow"):
+    """policy for panic!/assert!/unreachable!/todo! sites:  "allow" | "forbid" | ("except", marker): forbidden unless the
+    enclosing block mentions `marker` (the deliberate deadlock panic of ask sits next to format_cycle_path)"""
+    def forbidden(c, k):
+        if no_panic or policy == "forbid":
+            return True
+        if isinstance(policy, (tuple, list)) and policy[0] == "except":
+            ob = c.enclosing_open(k)
+            blk = c.text[c.pos(ob):c.end(c.close(ob))] if ob >= 0 else c.text
+            return policy[1] not in blk
+        return False
     """panic!(..) -> vx_panic_site(w);  assert!(c, ..) -> if !(c) { vx_panic_site(w) };
     X.lock().unwrap() -> vx_unwrap_lock(X.lock(), w)"""
     def finder(c):
@@ -477,11 +487,11 @@ def rule_panics(text, no_panic=False):
             if c.kind(k) == "id" and c.t(k + 1) == "!" and c.t(k + 2) in OPEN and c.t(k - 1) != "::":
                 cl = c.close(k + 2)
                 if c.t(k) in ("panic", "unreachable", "unimplemented", "todo"):
-                    return (c.pos(k), c.end(cl), "vx_forbidden_panic(w)" if no_panic else "vx_panic_site(w)")
+                    return (c.pos(k), c.end(cl), "vx_forbidden_panic(w)" if forbidden(c, k) else "vx_panic_site(w)")
                 if c.t(k) in ("assert", "debug_assert"):
                     args = split_args(c, k + 2)
                     cond = c.slice(*args[0]).strip()
-                    return (c.pos(k), c.end(cl), "if !(%s) { %s(w) }" % (cond, "vx_forbidden_panic" if no_panic else "vx_panic_site"))
+                    return (c.pos(k), c.end(cl), "if !(%s) { %s(w) }" % (cond, "vx_forbidden_panic" if forbidden(c, k) else "vx_panic_site"))
             if c.seq(k, ".", "lock", "(", ")", ".", "unwrap", "(", ")"):
                 rs = _method_call_receiver_start(c, k)
                 recv = c.text[c.pos(rs):c.pos(k)].strip()
